@@ -126,7 +126,7 @@ def race_params(tier):
     ]
 
 
-def _race(a, tier, fail_override=None):
+def _race(a, tier, fail_override=None, prop="C04"):
     S = 5 if tier == "quick" else 7
     fsteps = pick(a["fsteps"], 4) - 1  # -1: a synchronous factory; 0..2: async factory awaiting that many checkpoints
     multi = pick(a["multi"], 2)
@@ -232,6 +232,15 @@ def _race(a, tier, fail_override=None):
     booms = [i for i, r in results.items() if type(r).__name__ == "FactoryBoom" or r == "cancelled-in-mid-generation"]
     summary["first_generation"] = ["succeeds", "raises", "its requester is cancelled while the factory is awaited"][failfirst]
     apis_of = lambda i: 0 if i == "main" else apis[i]  # noqa: E731
+    if prop == "C18":
+        # C18's clause only: the first (successful) generation in this context announces itself exactly once, whatever the interleaving
+        gen_events = [e for e in events if not e.is_factory]
+        if len(gen_events) != 1:
+            return FAIL(f"race:generation-events={len(gen_events)}:first-attempt={failfirst}", f"factory calls={len(calls)} results={results}", summary)
+        ev = gen_events[0]
+        if tuple(ev.resource_types) != ((T0, T1) if multi else (T0,)) or ev.resource_name != "a":
+            return FAIL("race:generation-event-payload", f"{ev.resource_types} {ev.resource_name}", summary)
+        return OK(summary, True)
     if failfirst:
         # exactly the requester that ran the failing generation sees the error; the others retry: ONE more call
         expected_calls = 2
